@@ -64,6 +64,13 @@ type Scenario struct {
 	MaxGone int  `json:"max_gone,omitempty"` // at most this many subscribers are cancelled (0 = one)
 }
 
+func b01(b bool) string {
+	if b {
+		return "1"
+	}
+	return "0"
+}
+
 func (o WOp) encode() string {
 	switch o.K {
 	case "s":
@@ -109,23 +116,23 @@ func (sc Scenario) driverLine(sched []string) string {
 		}
 		progs = append(progs, s)
 	}
-	uo := ""
+	var subs []string
 	for _, s := range sc.Subs {
-		if s.UO {
-			uo += "1"
-		} else {
-			uo += "0"
-		}
+		subs = append(subs, b01(s.UO)+b01(!s.BP)+"n")
 	}
+	uo := strings.Join(subs, ",")
 	if uo == "" {
 		uo = "-"
 	}
 	var acts []string
 	for _, a := range sched {
-		if a[0] == 'p' || a[0] == 'b' || a[0] == 'x' { // harness-only steps: no move of the model
+		if a[0] == 'p' || a[0] == 'b' { // harness-only steps: no move of the model
 			continue
 		}
 		acts = append(acts, a)
+		if a[0] == 'd' { // the consumers are free-running: whatever was handed over is taken at once
+			acts = append(acts, "R")
+		}
 	}
 	ss := strings.Join(acts, ",")
 	if ss == "" {
@@ -254,6 +261,7 @@ type consumer struct {
 	closed   chan struct{}
 	cancel   context.CancelFunc
 	gone     bool // cancelled during the run: no claim about its view
+	skipped  int  // received events not recorded (per-id sentinels)
 }
 
 func (c *consumer) add(e ev, isSentinel bool) {
@@ -437,6 +445,48 @@ func runHooked(ctl *k4.Controller, sc Scenario, prefix []string, choose chooser)
 		})
 	}
 	ctl.SplitListen = func(id int) bool { return id >= 100 && split[id-100] }
+	// mirror of Bus.listeners and of each Send's listener copy: after a delivery to a LOSSY subscriber the
+	// harness waits until its free-running consumer has taken the event, so that the stage is drained before the
+	// next step whatever the machine load (this is what the model's `R` after every delivery says)
+	var regOrder []int
+	snapshot := make([][]int, nw)
+	pubGc := make([]bool, nw)
+	delivered := make([]int, ns)
+	awaitTaken := func(t int) {
+		if len(snapshot[t]) == 0 {
+			return
+		}
+		target := snapshot[t][0]
+		snapshot[t] = snapshot[t][1:]
+		c := out.Subs[target]
+		if c == nil {
+			return
+		}
+		if c.gone {
+			pubGc[t] = true
+			return
+		}
+		delivered[target]++
+		if c.spec.BP {
+			return
+		}
+		deadline := time.Now().Add(5 * time.Second)
+		for time.Now().Before(deadline) {
+			c.mu.Lock()
+			n := 0
+			for _, e := range c.evs {
+				if !e.seed {
+					n++
+				}
+			}
+			n += c.skipped
+			c.mu.Unlock()
+			if n >= delivered[target] {
+				return
+			}
+			time.Sleep(50 * time.Microsecond)
+		}
+	}
 	var flight []int // writers with a publication in flight, commit order
 	lockHeld := -1   // writer whose Delete publishes under the lock
 	blocked := -1    // writer blocked on mu.Lock behind a subscriber parked inside RLock
@@ -455,6 +505,9 @@ func runHooked(ctl *k4.Controller, sc Scenario, prefix []string, choose chooser)
 		if wasStart {
 			if len(flight) > 0 && (inFlight || lastErr[t] == nil) {
 				out.Concurrent = true // this commit overlaps an unfinished publication
+			}
+			if inFlight && th.Point == ptListener {
+				snapshot[t] = append([]int{}, regOrder...) // Delete: the listener copy is taken in the commit step
 			}
 			if inFlight {
 				flight = append(flight, t)
@@ -576,7 +629,25 @@ func runHooked(ctl *k4.Controller, sc Scenario, prefix []string, choose chooser)
 			}
 		case 'n', 'd':
 			t := flight[n]
+			if pick[0] == 'n' {
+				snapshot[t] = append([]int{}, regOrder...)
+			}
 			ctl.StepWait(wth[t])
+			if pick[0] == 'd' {
+				awaitTaken(t)
+			}
+			if wth[t].Status != k4.Parked || (wth[t].Point != ptListener && wth[t].Point != ptUpdSend && wth[t].Point != ptValSend) {
+				if pubGc[t] { // this Send met a dead listener: Bus.collect has run
+					var keep []int
+					for _, i := range regOrder {
+						if out.Subs[i] == nil || !out.Subs[i].gone {
+							keep = append(keep, i)
+						}
+					}
+					regOrder = keep
+				}
+				pubGc[t] = false
+			}
 			afterWriterStep(t, false)
 			out.Sched = append(out.Sched, pick)
 			if blocked >= 0 && lockHeld < 0 && atListen < 0 { // the Delete released the lock: the waiting writer commits
@@ -609,6 +680,7 @@ func runHooked(ctl *k4.Controller, sc Scenario, prefix []string, choose chooser)
 				out.DupAtSub = true
 			}
 			ctl.StepWait(sth[n])
+			regOrder = append(regOrder, n)
 			out.Sched = append(out.Sched, pick)
 			if atListen == n {
 				atListen = -1
@@ -836,7 +908,11 @@ func maskModel(ans string, sc Scenario) string {
 			if len(f) != 3 {
 				return ans
 			}
-			outp = append(outp, subCanon(i, sc.Subs[i], f[0] == "true", parseView(f[1]), strings.Split(f[2], ";")))
+			if f[0] == "gone" {
+				outp = append(outp, fmt.Sprintf("S%d=gone", i))
+				continue
+			}
+			outp = append(outp, subCanon(i, sc.Subs[i], f[0] == "live", parseView(f[1]), strings.Split(f[2], ";")))
 		case strings.HasPrefix(p, "pubs="), strings.HasPrefix(p, "lock="):
 			outp = append(outp, p)
 		}
@@ -892,6 +968,10 @@ func subCanon(i int, spec SubSpec, registered bool, view map[string]int64, evs [
 func codeCanon(sc Scenario, o *Outcome) string {
 	parts := []string{"store=" + showView(o.Contents)}
 	for i, c := range o.Subs {
+		if c.gone {
+			parts = append(parts, fmt.Sprintf("S%d=gone", i))
+			continue
+		}
 		view, _, hist := c.fold()
 		var evs []string
 		for _, e := range hist {
@@ -1018,6 +1098,40 @@ func main() {
 			runs = append(runs, pending{sc, runHooked(ctl, sc, nil, func(en []string, _ []string) string { return en[rng.Intn(len(en))] })})
 		}
 		ctl.Close()
+		ctie := res.Tie("k4-churn-schedules", "K4",
+			"single writer, three subscribers, any of which may be cancelled at any step (step x<i>: context cancelled and stream awaited closed, so the next Send meets a dead listener and runs Bus.collect), scripted witnesses + random schedules through the same yield points; store, surviving subscribers' views and backpressured event sequences compared with run(model) incl. the model's cancel / dead-listener / collect steps; non-trivial = a subscriber registered after a cancellation")
+		if drv, err := lib.StartDriver(f.Driver); err != nil {
+			ctie.Fail(err)
+		} else {
+			lines := make([]string, len(runs))
+			for i, c := range runs {
+				lines[i] = c.sc.driverLine(c.o.Sched)
+			}
+			answers, err := drv.Batch(lines)
+			drv.Close()
+			if err != nil {
+				ctie.Fail(err)
+			} else {
+				for i, c := range runs {
+					in := map[string]any{"churn": true, "max_gone": c.sc.MaxGone, "res": c.sc.Res, "init": c.sc.Init, "writers": c.sc.Writers, "subs": c.sc.Subs, "sched": c.o.Sched}
+					seenX, late := false, false
+					for _, a := range c.o.Sched {
+						if a[0] == 'x' {
+							seenX = true
+						}
+						if a[0] == 's' && seenX {
+							late = true
+						}
+					}
+					ctie.Record(lines[i], late, in, maskModel(answers[i], c.sc), codeCanon(c.sc, c.o))
+					if strings.HasSuffix(answers[i], "ord=1") {
+						ctie.Count("ordered-schedule")
+					} else {
+						ctie.Count("unordered-schedule")
+					}
+				}
+			}
+		}
 		for _, c := range runs {
 			cancelled, lateSub := 0, false
 			seenX := false
@@ -1172,7 +1286,7 @@ func replay(f lib.Flags) int {
 			ms.Init = map[string]int{}
 		}
 		for i := 0; i < 50; i++ {
-			if v := runMasks(ms); v != nil {
+			if v, _ := runMasks(ms); v != nil {
 				fmt.Printf("STILL FAILS %s: %s (expected %s, observed %s)\n", v.sig, v.what, v.expected, v.observed)
 				return 1
 			}
@@ -1187,7 +1301,7 @@ func replay(f lib.Flags) int {
 		}
 		ctl := k4.New(ptUpdSend, ptValSend, ptListener)
 		defer ctl.Close()
-		if v := runDup(ctl, ds); v != nil {
+		if v, _ := runDup(ctl, ds); v != nil {
 			fmt.Printf("STILL FAILS %s: %s (expected %s, observed %s)\n", v.sig, v.what, v.expected, v.observed)
 			return 1
 		}
